@@ -997,6 +997,8 @@ class Pile(Widget, WidgetContainerMixin, WidgetContainerListContentsMixin):
         else:
             return False
 
+        # the event is relative to what is drawn: tell the child the focus state it was rendered with
+        w_focus = focus and self.focus == w
         if is_mouse_press(event) and button == 1 and w.selectable():
             self.focus_position = i
 
@@ -1008,4 +1010,4 @@ class Pile(Widget, WidgetContainerMixin, WidgetContainerListContentsMixin):
             )
             return False
 
-        return w.mouse_event(w_size, event, button, col, target_row, focus and self.focus == w)
+        return w.mouse_event(w_size, event, button, col, target_row, w_focus)
